@@ -193,28 +193,43 @@ Theorem C20_dkv_refines_map : forall ops s t k,
 Proof. exact dkv_refines_map. Qed.
 Print Assumptions C20_dkv_refines_map.
 
-(* Index aliases.  FULL STATEMENT (does not hold, see the two _refuted):
-     after any operations and restarts, forward and reverse reads return the aliases written.
-   Forward files: hold for all sequences with crash-restarts (guard: no clean shutdown). *)
+(* Index aliases (model of pkg/virtualtable as of a69a617).  FULL: for every sequence of adds,
+   removes, reads, process crashes and CLEAN SHUTDOWNS followed by a start, for every tenant,
+   GetAliases(index) holds exactly the aliases written last (sets are compared by membership:
+   the shutdown flush may rewrite a file in another order) ... *)
+Theorem C20_alias_refines_map : forall ops t i al,
+  ns_mem al (aabs (arun ops empty_astore) t i) = ns_mem al (aspec_run ops (aabs empty_astore) t i).
+Proof. exact alias_refines_map. Qed.
+Print Assumptions C20_alias_refines_map.
+
+(* ... and the reverse lookup (IsAlias / ExpandAndReturnIndexNames) finds index i for an alias iff
+   the file of index i lists the alias, restarts included. *)
+Theorem C20_alias_reverse_consistent : forall ops, rev_consistent (arun ops empty_astore).
+Proof. exact alias_reverse_consistent. Qed.
+Print Assumptions C20_alias_reverse_consistent.
+
+(* Aliases survive a restart, graceful or not, for every tenant. *)
+Theorem C20_alias_restart_preserves : forall ops o t i al, is_restart o = true ->
+  ns_mem al (aabs (arun (ops ++ [o]) empty_astore) t i) = ns_mem al (aabs (arun ops empty_astore) t i).
+Proof. exact alias_restart_preserves. Qed.
+Print Assumptions C20_alias_restart_preserves.
+
+(* Without a clean shutdown the files are even literally the written lists. *)
 Theorem C20_alias_forward_refines_map : forall ops s, ainv s ->
   forallb (fun o => negb (is_shutdown o)) ops = true ->
   forall t i, aabs (arun ops s) t i = aspec_run ops (aabs s) t i.
 Proof. exact alias_forward_refines_map. Qed.
 Print Assumptions C20_alias_forward_refines_map.
 
-Theorem C20_alias_shutdown_flush_refuted :
-  exists ops t i, aabs (arun ops empty_astore) t i <> aspec_run ops (aabs empty_astore) t i.
-Proof. exact alias_shutdown_flush_refuted. Qed.
-Print Assumptions C20_alias_shutdown_flush_refuted.
+(* ---- PRE-FIX documentation (about [arun_prefix]: only sub-directories of aliases/ were scanned
+   at start; the shutdown flush wrote <alias>.json holding index names) *)
+Theorem C20_prefix_alias_reverse_lost_refuted :
+  exists ops, ~ rev_consistent (arun_prefix ops empty_astore).
+Proof. exact prefix_alias_reverse_lost_refuted. Qed.
+Print Assumptions C20_prefix_alias_reverse_lost_refuted.
 
-(* Reverse lookup (IsAlias): consistent with the forward files (guard: no restart). *)
-Theorem C20_alias_reverse_consistent_guarded : forall ops,
-  forallb (fun o => negb (is_restart o)) ops = true ->
-  rev_consistent (arun ops empty_astore).
-Proof. exact alias_reverse_consistent_guarded. Qed.
-Print Assumptions C20_alias_reverse_consistent_guarded.
-
-Theorem C20_alias_reverse_lost_refuted :
-  exists ops, ~ rev_consistent (arun ops empty_astore).
-Proof. exact alias_reverse_lost_refuted. Qed.
-Print Assumptions C20_alias_reverse_lost_refuted.
+Theorem C20_prefix_alias_shutdown_flush_refuted :
+  exists ops t i al,
+    ns_mem al (aabs (arun_prefix ops empty_astore) t i) <> ns_mem al (aspec_run ops (aabs empty_astore) t i).
+Proof. exact prefix_alias_shutdown_flush_refuted. Qed.
+Print Assumptions C20_prefix_alias_shutdown_flush_refuted.
